@@ -588,9 +588,9 @@ func init() {
 			"equality), truthiness table, determinism of String(). distinct = distinct (Go value rendering, options) / distinct value pair; non-trivial = nested value or a pair of different kinds",
 		N: func(tier string) int {
 			if tier == "thorough" {
-				return 500000
+				return 1000000
 			}
-			return 20000
+			return 60000
 		},
 		Run: func(ctx *fw.Ctx, i int) fw.Result {
 			r := ctx.Rng
